@@ -3,29 +3,77 @@
     literal matching of syntax-rules (lib/init-7.scm), hence behind the recognition of else => ... _
     unquote in cond, case, guard, syntax-rules, quasiquote.  Keys are plain symbols (an identifier
     renamed by a macro is looked up in the macro's environment under its base name: that step is
-    C07's).  No proofs in this file. *)
+    C07's).  No proofs in this file.
+
+    Round 4: the pinned build has SEXP_USE_STRICT_TOPLEVEL_BINDINGS = 1 (include/chibi/features.h:629-631;
+    props/C14.py reads the default from the source on every run and fails closed when it changes), so the
+    "lenient top-level" clause of sexp_identifier_eq_op (eval.c:686-691) is not compiled in: for plain
+    symbols the function compares CELLS, and names only when neither identifier has a cell.
+    What the round-3 model got wrong was which cells exist: analyze_var_ref (eval.c:790-797) gives an
+    identifier that is referred to before it is defined a cell holding SEXP_UNDEF in the top frame of the
+    environment (sexp_env_cell_create).  The pinned code counts that cell as a binding, so a literal [foo]
+    of an imported macro stops matching the program's unbound [foo] as soon as the program has mentioned
+    the variable foo anywhere (F-C14-3; fixes/C14-identifier-eq-undefined-cell.patch makes such a cell
+    count as unbound).  [identifier_eq] models the REPAIRED function, [identifier_eq_pinned] the pinned one. *)
 From Coq Require Import String List Bool Arith.
 From ChibiV Require Import C14.Spec C14.Env C14.SynClo.
 Import ListNotations.
 Local Open Scope string_scope.
 
-(** eval.c sexp_identifier_eq_op (e1, id1, e2, id2):
-      cell1 = sexp_env_cell(e1, id1); cell2 = sexp_env_cell(e2, id2);
-      if (cell1 && cell1 == cell2) return #t;                          -- same binding CELL, whatever the two names
-      else if (!cell1 && !cell2 && id1 == id2) return #t;               -- both unbound, same name
-      [strip syntactic closures]
-      if (id1 == id2 && ((!cell1 && !cell2)
-           || ((!cell1 || plain cell1) && (!cell2 || plain cell2)))) return #t;     -- !SEXP_USE_STRICT_TOPLEVEL_BINDINGS
-      return #f;
-    [plain c] = the cell holds neither a lambda-local nor syntax (sexp_lambdap(cdr cell), sexp_env_cell_syntactic_p). *)
-Definition identifier_eq (plain : loc -> bool) (e1 : env) (id1 : string) (e2 : env) (id2 : string) : bool :=
-  match env_cell e1 id1, env_cell e2 id2 with
-  | Some c1, Some c2 => Nat.eqb c1 c2 || (String.eqb id1 id2 && plain c1 && plain c2)
-  | None, None => String.eqb id1 id2
-  | Some c, None | None, Some c => String.eqb id1 id2 && plain c
+(** the cell of [id] in [e] unless it is an undefined cell: [undef c] = (sexp_cdr(cell) == SEXP_UNDEF),
+    the two lines the fix adds after the lookups *)
+Definition live_cell (undef : loc -> bool) (e : env) (id : string) : option loc :=
+  match env_cell e id with
+  | Some c => if undef c then None else Some c
+  | None => None
   end.
 
-(** the strict reading R7RS 4.3.2 gives: same binding, or both unbound and the same name *)
+(** eval.c sexp_identifier_eq_op (e1, id1, e2, id2), strict build, plain symbols, after the fix:
+      cell1 = sexp_env_cell(e1, id1); cell2 = sexp_env_cell(e2, id2);
+      if (cell1 && cdr(cell1) == SEXP_UNDEF) cell1 = NULL;  (same for cell2)           -- the fix
+      if (cell1 && cell1 == cell2) return #t;                          -- same binding CELL, whatever the two names
+      else if (!cell1 && !cell2 && id1 == id2) return #t;               -- both unbound, same name
+      [strip syntactic closures: identity on plain symbols]
+      if (id1 == id2 && !cell1 && !cell2) return #t;                    -- (the lenient clause is #if'ed out)
+      return #f; *)
+Definition identifier_eq (undef : loc -> bool) (e1 : env) (id1 : string) (e2 : env) (id2 : string) : bool :=
+  match live_cell undef e1 id1, live_cell undef e2 id2 with
+  | Some c1, Some c2 => Nat.eqb c1 c2
+  | None, None => String.eqb id1 id2
+  | _, _ => false
+  end.
+
+(** the pinned function: every cell counts, also one that only a reference created *)
+Definition identifier_eq_pinned (e1 : env) (id1 : string) (e2 : env) (id2 : string) : bool :=
+  identifier_eq (fun _ => false) e1 id1 e2 id2.
+
+(** analyze_var_ref (eval.c:790-797) of an identifier that has no cell, at the top level of a program or
+    library (no lambda frame, no syntactic copy on top): sexp_env_cell_create -> sexp_env_cell_define
+    (eval.c:138-161) pushes (id . SEXP_UNDEF) on the bindings of the first frame; [fresh] is the new
+    cell.  An identifier that has a cell is left alone. *)
+Definition reference (e : env) (id : string) (fresh : loc) : env :=
+  match env_cell e id with
+  | Some _ => e
+  | None => match e with
+            | f :: r => {| f_renames := f_renames f; f_bindings := (id, fresh) :: f_bindings f;
+                           f_immutable := f_immutable f |} :: r
+            | [] => []
+            end
+  end.
+
+(** ** SPEC: R7RS 4.3.2 "A subform in the input matches a literal if and only if it is an identifier and
+    either both its occurrence in the macro expression and its occurrence in the macro definition have the
+    same lexical binding, or the two identifiers are the same and both have no lexical binding."
+    An identifier that was only referred to (its cell holds no value yet) has no binding. *)
+Definition bound_to (undef : loc -> bool) (e : env) (id : string) (c : loc) : Prop :=
+  env_cell e id = Some c /\ undef c = false.
+Definition unbound_in (undef : loc -> bool) (e : env) (id : string) : Prop :=
+  forall c, env_cell e id = Some c -> undef c = true.
+Definition r7rs_literal_match (undef : loc -> bool) (e1 : env) (id1 : string) (e2 : env) (id2 : string) : Prop :=
+  (exists c, bound_to undef e1 id1 c /\ bound_to undef e2 id2 c) \/
+  (unbound_in undef e1 id1 /\ unbound_in undef e2 id2 /\ id1 = id2).
+
+(** the executable form of the SPEC used by the check when no cell is undefined *)
 Definition same_binding (e1 : env) (id1 : string) (e2 : env) (id2 : string) : bool :=
   match env_cell e1 id1, env_cell e2 id2 with
   | Some c1, Some c2 => Nat.eqb c1 c2
@@ -35,9 +83,9 @@ Definition same_binding (e1 : env) (id1 : string) (e2 : env) (id2 : string) : bo
 
 (** the literal [lit] of a macro defined in library [D] of graph [g] against the identifier [n] written
     in a program importing [is]: environments as built by Env.env_import (SynClo.program_env / graph_envs) *)
-Definition literal_probe (plain : loc -> bool) (g : list libdef) (is : list iset) (D : libname) (lit n : name) : bool :=
+Definition literal_probe (undef : loc -> bool) (g : list libdef) (is : list iset) (D : libname) (lit n : name) : bool :=
   let es := graph_envs (world_of g) g 0 [] in
   match lookup_env D es with
-  | Some de => identifier_eq plain (program_env g is) n de lit
+  | Some de => identifier_eq undef (program_env g is) n de lit
   | None => false
   end.
